@@ -17,13 +17,15 @@ Slack == 200         \* ms
 JudgeClass(e) ==
   /\ Report("VERDICT", "C13_NoPanic", e, e.panic = "")
   \* none of the enumerated classes can be decoded into a message: membership and delegates stay untouched
-  /\ Report("VERDICT", "C13_Untouched", e, ~e.changed)
+  /\ Report("VERDICT", "C13_Untouched", e, e.defect = "flood" \/ ~e.changed)
   \* a declared size beyond a cap is refused on the declaring header: nothing after it is consumed
   /\ Report("VERDICT", "C13_CapBeforeRead", e,
             (e.path = "stream" /\ e.oversize /\ e.headerLen > 0) => e.accepted <= e.headerLen + ReadAhead)
   \* the stream handler always ends: the node closes the stream within its stream timeout
   /\ Report("VERDICT", "C13_NoHang", e, (e.path = "stream" /\ e.panic = "") => (e.closedMs >= 0 /\ e.closedMs <= e.timeoutMs + Slack))
   /\ Report("VERDICT", "C13_ErrReplyOnly", e, e.reply \in {"none", "err"})
+  \* the handoff queue never holds more than its configured depth
+  /\ Report("VERDICT", "C13_QueueCap", e, e.defect = "flood" => (e.qmax <= e.qcap /\ e.qcap > 0))
   /\ PrintT(<<"STAT2", "C13_" \o e.layer \o "_" \o e.defect, 1, 1>>)
 
 \* byte campaigns (every truncation, single-byte mutations of a genuine frame)
